@@ -172,6 +172,17 @@ func init() {
 					return
 				}
 			}
+			// several override blocks at once: one unregistered name next to registered ones, wherever it sorts
+			for _, bad := range []string{"aaa", "dpkg", "nosuchformat", "zzz", "DEB", "rpm "} {
+				for _, good := range Formats {
+					if !yield(C13Case{Part: "validate", Key: bad, Key2: good}) {
+						return
+					}
+				}
+				if !yield(C13Case{Part: "validate", Key: bad, All: true}) {
+					return
+				}
+			}
 			for _, k := range Formats {
 				if !yield(C13Case{Part: "umask", Key: k}) {
 					return
@@ -473,6 +484,14 @@ func checkC13(env *engine.Env, ci any) engine.Outcome {
 		if c.Empty {
 			doc["overrides"] = map[string]any{c.Key: map[string]any{}}
 		}
+		if c.Key2 != "" {
+			doc["overrides"].(map[string]any)[c.Key2] = map[string]any{"depends": []any{"y"}}
+		}
+		if c.All {
+			for _, f := range Formats {
+				doc["overrides"].(map[string]any)[f] = map[string]any{"depends": []any{"y-" + f}}
+			}
+		}
 		text := fixture.Doc(doc).YAML()
 		cfg, err := parseYAML(text, nil)
 		if err != nil {
@@ -486,7 +505,7 @@ func checkC13(env *engine.Env, ci any) engine.Outcome {
 				registered = true
 			}
 		}
-		out.Key = fmt.Sprintf("validate:%s:%v:%v", c.Key, c.Empty, verr != nil)
+		out.Key = fmt.Sprintf("validate:%s:%s:%v:%v:%v", c.Key, c.Key2, c.All, c.Empty, verr != nil)
 		if registered && verr != nil {
 			viol("merge:validate-rejects-registered:"+c.Key, "Validate rejects an override block for the registered format %q: %v", c.Key, verr)
 		}
